@@ -291,7 +291,8 @@ class Rounding:
             k0 = key0(*oargs, **okw)
             r = (k == k0)
             if hasattr(x, '_fields') and not bool(r):
-                r = (k == key0(*args, **kw))
+                aargs, akw = ((x,), {'y': oy}) if callform == 0 else ((x, oy), {})
+                r = (k == key0(*aargs, **akw))
             ctx.check(r if not canary else Not(r), 'C12:key',
                       {'kind': 'key differs from the key of the oracle-rounded arguments'})
         if via != 'keygen':
